@@ -32,6 +32,9 @@ def build_harness(release=False):
     """(Re)build the harness against /repo's current working tree.  Returns the binary path.
     A build failure is a machinery error (the tree does not compile), reported as such."""
     os.makedirs(CACHE, exist_ok=True)
+    if os.environ.get("VERIF_HARNESS_BIN") and not release:
+        # a pre-built (e.g. coverage-instrumented) harness: used by tools/coverage.sh only, never by a registered check
+        return os.environ["VERIF_HARNESS_BIN"]
     lock = os.path.join(HARNESS_DIR, "Cargo.lock")
     shutil.copyfile(os.path.join(REPO, "Cargo.lock"), lock)
     cmd = ["cargo", "build", "--offline", "--quiet"]
